@@ -177,7 +177,10 @@ func check(c Case) error {
 	if string(text) != snapshot {
 		return vk.Errf("the bytes returned by Build(x) changed when another sequence was built afterwards: %q, was %q", string(text), snapshot)
 	}
-	if err := compare("Parse(Build(x))", c, gff.Parse(text)); err != nil {
+	buf := append([]byte{}, text...) // a buffer of the parser's own, overwritten once it has returned
+	parsed := gff.Parse(buf)
+	vk.Scribble(buf)
+	if err := compare("Parse(Build(x))", c, parsed); err != nil {
 		return err
 	}
 	if again := gff.Build(x); string(again) != string(text) {
@@ -186,7 +189,7 @@ func check(c Case) error {
 	p := filepath.Join(vk.WorkDir(), "x.gff")
 	defer os.Remove(p)
 	vk.StaleFile(p, 2*len(text)+500)
-	gff.Write(x, p)
+	vk.AlternateTempDir(func() { gff.Write(x, p) })
 	if err := compare("Read(Write(x))", c, gff.Read(p)); err != nil {
 		return err
 	}
